@@ -2,6 +2,8 @@
 (* Trace validation (impl -> spec) for C08 - C11.  One ndjson event per call of
    the real library:
      kind "comp"  [fmt, input, res, rt]   res = compress(input), rt = decompress(res.out)
+     kind "bigcomp" [fmt, pat, n, res, rt]  input = pat repeated to n bytes (up to 16 MiB - 1, not listed);
+                                          rt = [kind, same]: own decompression compared by the harness
      kind "dec"   [entry, stream, res]    res = <entry>.decompress(stream)
      kind "size"  [fmt, n, p, input, ok, clen]   compress of an n-byte input of period p
                                           (p = 0: none claimed; input listed when small)
@@ -10,6 +12,8 @@
    header / flag byte / token (DStep); when the machine reaches a terminal class
    the event is accepted iff the library's result is one the specification allows
    (StreamOKd, ResAllowed; the size bounds of C10 are judged on the "size" events).
+   A "bigcomp" event is judged in one step by the validating decoder (LZ!VRunPeriodic: same
+   token layouts and checks, `out` replaced by the known expected output).
    Rejected event indices are collected in `bad`.  *)
 EXTENDS LZ, TLC, Json, IOUtils
 
@@ -39,6 +43,10 @@ Accept(ev, t) ==
          ELSE /\ ev.res.kind = "ok"
               /\ StreamOKd(ev.fmt, ev.input, ev.res.out, t)
               /\ ev.rt.kind = "ok" /\ ev.rt.out = ev.input
+    [] ev.kind = "bigcomp" ->
+         /\ ev.res.kind = "ok"
+         /\ StreamOKPeriodic(ev.fmt, ev.pat, ev.n, ev.res.out)
+         /\ ev.rt.kind = "ok" /\ ev.rt.same
     [] ev.kind = "dec" -> ResAllowed(ClassOf(Route(ev.entry, ev.stream), t), ev.res)
     [] ev.kind = "size" ->
          /\ ev.ok
@@ -50,6 +58,7 @@ Start(k) == IF k <= Len(Rec) THEN Dec0(Plan(Rec[k]).off) ELSE Dec0(0)
 
 Key(ev, t) ==
   CASE ev.kind = "comp" -> "comp:" \o t.st \o ":" \o t.why
+    [] ev.kind = "bigcomp" -> "bigcomp"
     [] ev.kind = "dec"  -> LET c == ClassOf(Route(ev.entry, ev.stream), t) IN "dec:" \o c.cls \o ":" \o c.why
     [] ev.kind = "size" -> IF ev.p > 0 THEN "size:periodic"
                            ELSE IF Periods(ev.input) # {} THEN "size:small-periodic" ELSE "size:other"
